@@ -28,7 +28,12 @@
    (exception raised after the object was changed).  A late refusal that leaves the library object
    unusable (first add_eltorito failing after self.brs.append: every later _reshuffle_extents
    raises) sets [bwreck]; the model does not follow the library beyond that point (every later
-   operation is [Ref]).  Definitions only; proofs: Proofs/AccountBoot*.v. *)
+   operation is [Ref]).
+   [fx] selects the code: true = the current tree (commits d8f44b3: an empty boot file is refused;
+   6a3f4a5: the boot info table is attached only once add_eltorito has succeeded; 4476941: a hard
+   link made from a name of the boot catalog becomes a catalog name), false = the tree before these
+   three commits (kept for the witnesses of Proofs/AccountBootProofs2.v).  [bstep] / [brun] are the
+   current code.  Definitions only; proofs: Proofs/AccountBoot*.v. *)
 From Coq Require Import ZArith List Bool Arith.
 From PV.Base Require Import Prim.
 From PV.Gen Require Import GenConst GenFun.
@@ -97,31 +102,40 @@ Definition rm_record (l : lstate) (dirp : path) dn dl (kids : list lnode) (k : n
 
 (* ---- add_hard_link ---------------------------------------------------------------------------- *)
 
-(* iso_old_path: old_rec.inode may be None (a name of the boot catalog, or a link made from one):
-   the new record then has no inode either *)
-Definition bstep_add_link (s : bstate) (src dirp : path) (nm : ident) : bstate * outcome :=
+(* the new record is inode-less and joins eltorito_boot_catalog.dirrecords *)
+Definition add_cat_name (s : bstate) (b : boot) (dirp : path) (nm : ident) : bstate * outcome :=
+  let l := bl s in
+  let r := add_record l dirp nm (lnext l) (linodes l) 0 in
+  if snd r then
+    ({| bl := fst r;
+        bboot := Some {| cat_recs := cat_recs b ++ [lnext l]; bcat := bcat b; binos := binos b |};
+        bbits := bbits s; bwreck := bwreck s |}, Acc)
+  else brefuse s.
+
+(* iso_old_path: old_rec.inode may be None.  4476941: `if any(old_rec is rec for rec in
+   dirrecords): boot_catalog_old = True`; before, the new record had no inode either but the catalog
+   did not know it (it never got an extent). *)
+Definition bstep_add_link (fx : bool) (s : bstate) (src dirp : path) (nm : ident) : bstate * outcome :=
   let l := bl s in
   match lsubtree src (lroot l) with
   | Some (LFile _ i _) =>
       if has_ino i (linodes l) then lift s (add_record l dirp nm i (linodes l) 0)
-      else lift s (add_record l dirp nm (lnext l) (linodes l) 0)
+      else
+        match bboot s with
+        | Some b => if fx && mem i (cat_recs b) then add_cat_name s b dirp nm
+                    else lift s (add_record l dirp nm (lnext l) (linodes l) 0)
+        | None => lift s (add_record l dirp nm (lnext l) (linodes l) 0)
+        end
   | _ => brefuse s
   end.
 
 (* boot_catalog_old=True: old_rec = dirrecords[0]; the new record joins dirrecords *)
 Definition bstep_add_cat_link (s : bstate) (dirp : path) (nm : ident) : bstate * outcome :=
-  let l := bl s in
   match bboot s with
   | Some b =>
       match cat_recs b with
       | [] => brefuse s                              (* IndexError; unreachable *)
-      | _ :: _ =>
-          let r := add_record l dirp nm (lnext l) (linodes l) 0 in
-          if snd r then
-            ({| bl := fst r;
-                bboot := Some {| cat_recs := cat_recs b ++ [lnext l]; bcat := bcat b; binos := binos b |};
-                bbits := bbits s; bwreck := bwreck s |}, Acc)
-          else brefuse s
+      | _ :: _ => add_cat_name s b dirp nm
       end
   | None => brefuse s        (* 'Attempting to make link to non-existent El Torito boot catalog' *)
   end.
@@ -179,7 +193,7 @@ Definition bstep_rm_file (s : bstate) (dirp : path) (nm : ident) : bstate * outc
 Definition add_bit (bit : bool) (i : nat) (bits : list nat) : list nat :=
   if bit && negb (mem i bits) then i :: bits else bits.
 
-Definition bstep_add_eltorito (s : bstate) (bootp catdir : path) (catnm : ident)
+Definition bstep_add_eltorito (fx : bool) (s : bstate) (bootp catdir : path) (catnm : ident)
            (load_size : option Z) (platform : Z) (bit efi : bool) (media : Z) (bootable : bool)
            (seg : Z) : bstate * outcome :=
   let l := bl s in
@@ -190,19 +204,23 @@ Definition bstep_add_eltorito (s : bstate) (bootp catdir : path) (catnm : ident)
       if negb (has_ino i (linodes l)) then brefuse s   (* 'Tried to add an empty boot dirrecord inode' *)
       else
         let len := len_of i (linodes l) in
+        if fx && (len =? 0) then brefuse s             (* d8f44b3 'An El Torito boot file must not be empty' *)
+        else
         let sc := match load_size with None => default_sector_count len | Some v => v end in
-        let bits' := add_bit bit i (bbits s) in        (* inode.add_boot_info_table(bi_table) *)
-        let changed := negb (Nat.eqb (length bits') (length (bbits s))) in
-        let refused := ({| bl := l; bboot := bboot s; bbits := bits'; bwreck := bwreck s |},
+        (* inode.add_boot_info_table(bi_table): before 6a3f4a5 here, now after the catalog work *)
+        let bits_done := add_bit bit i (bbits s) in
+        let bits_early := if fx then bbits s else bits_done in
+        let changed := negb (Nat.eqb (length bits_early) (length (bbits s))) in
+        let refused := ({| bl := l; bboot := bboot s; bbits := bits_early; bwreck := bwreck s |},
                         if changed then Late else Ref) in
-        let wrecked := ({| bl := l; bboot := bboot s; bbits := bits'; bwreck := true |}, Late) in
+        let wrecked := ({| bl := l; bboot := bboot s; bbits := bits_early; bwreck := true |}, Late) in
         match bboot s with
         | Some b =>
             match cat_add_section (bcat b) sc seg (media_of_Z media) 0 efi bootable with
             | Some c' =>
                 ({| bl := l;         (* _finish_add(0, 0) *)
                     bboot := Some {| cat_recs := cat_recs b; bcat := c'; binos := binos b ++ [i] |};
-                    bbits := bits'; bwreck := bwreck s |}, Acc)
+                    bbits := bits_done; bwreck := bwreck s |}, Acc)
             | None => refused      (* 'Too many El Torito sections' / EltoritoEntry.new refuses *)
             end
         | None =>
@@ -213,7 +231,7 @@ Definition bstep_add_eltorito (s : bstate) (bootp catdir : path) (catnm : ident)
                 if snd r then
                   ({| bl := fst r;
                       bboot := Some {| cat_recs := [lnext l]; bcat := c; binos := [i] |};
-                      bbits := bits'; bwreck := bwreck s |}, Acc)
+                      bbits := bits_done; bwreck := bwreck s |}, Acc)
                 else wrecked
             | None => wrecked
             end
@@ -257,21 +275,25 @@ Definition bstep_rm_eltorito (s : bstate) : bstate * outcome :=
           bwreck := bwreck s |}, Acc)
   end.
 
-Definition bstep (s : bstate) (o : bop) : bstate * outcome :=
+Definition bstep_gen (fx : bool) (s : bstate) (o : bop) : bstate * outcome :=
   if bwreck s then brefuse s else
   match o with
   | BAddFile d n len => lift s (lstep_add_file (bl s) d n len)
   | BAddDir d n => lift s (lstep_add_dir (bl s) d n)
-  | BAddLink src d n => bstep_add_link s src d n
+  | BAddLink src d n => bstep_add_link fx s src d n
   | BAddCatLink d n => bstep_add_cat_link s d n
   | BRmLink d n => bstep_rm_link s d n
   | BRmFile d n => bstep_rm_file s d n
   | BRmDir p => lift s (lstep_rm_dir (bl s) p)
-  | BAddEltorito bp cd cn ls pf bit efi m ba sg => bstep_add_eltorito s bp cd cn ls pf bit efi m ba sg
+  | BAddEltorito bp cd cn ls pf bit efi m ba sg => bstep_add_eltorito fx s bp cd cn ls pf bit efi m ba sg
   | BRmEltorito => bstep_rm_eltorito s
   end.
+Definition brun_gen (fx : bool) (s : bstate) (ops : list bop) : bstate :=
+  fold_left (fun s o => fst (bstep_gen fx s o)) ops s.
 
-Definition brun (s : bstate) (ops : list bop) : bstate := fold_left (fun s o => fst (bstep s o)) ops s.
+(* the current code *)
+Definition bstep : bstate -> bop -> bstate * outcome := bstep_gen true.
+Definition brun : bstate -> list bop -> bstate := brun_gen true.
 
 (* ---- the from-scratch extent assignment (_reshuffle_extents) ---------------------------------- *)
 
@@ -396,26 +418,29 @@ Definition obs_eqb (a b : obs) : bool :=
 Definition bcase : Type := list (bop * obs).
 
 (* every observation agrees, and space = end of the last extent after every operation *)
-Fixpoint check_from (s : bstate) (c : bcase) : bool :=
+Fixpoint check_from (fx : bool) (s : bstate) (c : bcase) : bool :=
   match c with
   | [] => true
   | (o, expected) :: r =>
-      let s' := fst (bstep s o) in
-      obs_eqb (observe (snd (bstep s o)) s') expected &&
-      (bwreck s' || (lspace (bl s') =? blayout_end s')) && check_from s' r
+      let s' := fst (bstep_gen fx s o) in
+      obs_eqb (observe (snd (bstep_gen fx s o)) s') expected &&
+      (bwreck s' || (lspace (bl s') =? blayout_end s')) && check_from fx s' r
   end.
-Definition check_case (c : bcase) : bool := check_from binit c.
+Definition check_case_gen (fx : bool) (c : bcase) : bool := check_from fx binit c.
+Definition check_case : bcase -> bool := check_case_gen true.
 
-Fixpoint bad_accountboot_cases (k : nat) (cs : list bcase) : list nat :=
+Fixpoint bad_accountboot_cases_gen (fx : bool) (k : nat) (cs : list bcase) : list nat :=
   match cs with
   | [] => []
-  | c :: r => if check_case c then bad_accountboot_cases (S k) r
-              else k :: bad_accountboot_cases (S k) r
+  | c :: r => if check_case_gen fx c then bad_accountboot_cases_gen fx (S k) r
+              else k :: bad_accountboot_cases_gen fx (S k) r
   end.
+Definition bad_accountboot_cases : nat -> list bcase -> list nat := bad_accountboot_cases_gen true.
 
-Fixpoint brun_obs_from (s : bstate) (ops : list bop) : list obs :=
+Fixpoint brun_obs_from (fx : bool) (s : bstate) (ops : list bop) : list obs :=
   match ops with
   | [] => []
-  | o :: r => let s' := fst (bstep s o) in observe (snd (bstep s o)) s' :: brun_obs_from s' r
+  | o :: r => let s' := fst (bstep_gen fx s o) in
+              observe (snd (bstep_gen fx s o)) s' :: brun_obs_from fx s' r
   end.
-Definition brun_obs (ops : list bop) : list obs := brun_obs_from binit ops.
+Definition brun_obs (ops : list bop) : list obs := brun_obs_from true binit ops.
